@@ -26,6 +26,19 @@ Run(steps, i, execs, oids, acc) ==
                         ELSE IF s.kind = "session" THEN Fc("H1_session_msg_valid", Valid(s.mt, s.tree) # "no")
                         ELSE Fc("ACC_same_as_real_acceptor", s.a = s.b)
               IN Run(steps, i + 1, execs, oids, [fails |-> acc.fails \o [k \in DOMAIN fl |-> [step |-> i, clause |-> fl[k]]], drift |-> acc.drift, n |-> acc.n + 1])
-Verdict(tr) == [id |-> tr.id] @@ Run(tr.steps, 1, {}, {}, [fails |-> <<>>, drift |-> <<>>, n |-> 0])
+\* several orders registered with one helper, reports fabricated in any interleaving: step = [o (order index), orderid, execid]
+MultiVerdict(tr) ==
+    LET st == tr.steps
+        bad(P(_, _)) == {i \in DOMAIN st : \E j \in DOMAIN st : j < i /\ P(st[j], st[i])}
+        stable == bad(LAMBDA a, b : a.o = b.o /\ a.orderid # b.orderid)
+        ident == bad(LAMBDA a, b : a.o # b.o /\ a.orderid = b.orderid)
+        fresh == bad(LAMBDA a, b : a.execid = b.execid)
+        first(S) == CHOOSE i \in S : \A j \in S : i <= j
+    IN [id |-> tr.id, drift |-> <<>>, n |-> Len(st),
+        fails |-> (IF stable = {} THEN <<>> ELSE <<[step |-> first(stable), clause |-> "H4_stable_orderid"]>>)
+               \o (IF ident = {} THEN <<>> ELSE <<[step |-> first(ident), clause |-> "H4_orderid_identifies_order"]>>)
+               \o (IF fresh = {} THEN <<>> ELSE <<[step |-> first(fresh), clause |-> "H3_fresh_execid"]>>)]
+Verdict(tr) == IF "multi" \in DOMAIN tr THEN MultiVerdict(tr)
+               ELSE [id |-> tr.id] @@ Run(tr.steps, 1, {}, {}, [fails |-> <<>>, drift |-> <<>>, n |-> 0])
 ASSUME JsonSerialize(IOEnv.OUT_FILE, [i \in DOMAIN Traces |-> Verdict(Traces[i])])
 =============================================================================
